@@ -69,37 +69,66 @@ class HandleNegative(Contract):
         return [[z3.Int('M') == 2, z3.Int('M2') == 2, z3.Int('N') == a, z3.Int('N2') == a] for a in (1, 2)]
 
 
+class _Row:
+    """row k of a 2-row index array, as an indexable"""
+    def __init__(self, arr, k):
+        self.arr, self.k = arr, k
+
+    def __getitem__(self, j):
+        return self.arr[self.k, j]
+
+
 class ConvertFrom2d(Contract):
     key = F + '_convert_from_2d'
     prune_paths = True      # the scalar-column branch (size == 1) contradicts the precondition
 
+    def __init__(self, arr2d=False):
+        # arr2d: the index pairs arrive as one (2, M) array (what _get_iis_from_list builds) instead of a tuple of two arrays
+        self.arr2d = arr2d
+
     def params(self, e, st):
         from pyvc.engine import Tup
-        return {'iis_ragged': Tup([_arr(e, st, 'r', 'M'), _arr(e, st, 'c', 'M2')]),
-                'lengths': _arr(e, st, 'lengths', 'N'), 'starts': _arr(e, st, 'starts', 'N2'), 'error_check': True}
+        if self.arr2d:
+            import z3
+            from pyvc.logic import Arr
+            iis = e.new_obj(st, Arr(z3.Array('rc', z3.IntSort(), z3.IntSort(), z3.IntSort()), (z3.IntVal(2), z3.Int('M')), 'int'))
+        else:
+            iis = Tup([_arr(e, st, 'r', 'M'), _arr(e, st, 'c', 'M2')])
+        return {'iis_ragged': iis, 'lengths': _arr(e, st, 'lengths', 'N'), 'starts': _arr(e, st, 'starts', 'N2'), 'error_check': True}
+
+    def pair(self, L, A):
+        I = A['iis_ragged']
+        if self.arr2d:
+            return _Row(I, 0), _Row(I, 1), L.shape(I, 1), L.shape(I, 1)
+        r, c = I
+        return r, c, L.len(r), L.len(c)
 
     def ghost(self, L, A):
         PS, ax = prefix_sums(L, A['lengths'], 'PSR')
         return {'PS': PS}, ax
 
     def requires(self, L, A, G):
-        (r, c), ln, stt = A['iis_ragged'], A['lengths'], A['starts']
+        ln, stt = A['lengths'], A['starts']
+        r, c, m, m2 = self.pair(L, A)
         n = L.len(ln)
-        return [('paired-indices', L.And(L.len(r) == L.len(c), L.len(r) >= 1)), ('one-start-per-row', L.And(L.len(stt) == n, n >= 1)),
-                ('rows-addressable', L.forall(0, L.len(r), lambda k: L.And(r[k] >= -n, r[k] < n))),
+        return ([('two-index-rows', L.shape(A['iis_ragged'], 0) == 2)] if self.arr2d else []) + \
+               [('paired-indices', L.And(m == m2, m >= 1)), ('one-start-per-row', L.And(L.len(stt) == n, n >= 1)),
+                ('rows-addressable', L.forall(0, m, lambda k: L.And(r[k] >= -n, r[k] < n))),
                 ('lengths-positive', L.forall(0, n, lambda t: ln[t] >= 1)),
                 ('starts-are-prefix-sums', L.forall(0, n, lambda t: stt[t] == G['PS'](t))),
                 # the contract describes the checking mode only (what every read and write of the class relies on)
                 ('out-of-row-check-requested', A.get('error_check', True) is True)]
 
     def raises(self, L, A, G):
-        (r, c), ln = A['iis_ragged'], A['lengths']
+        ln = A['lengths']
+        r, c, m, _ = self.pair(L, A)
         n = L.len(ln)
-        return {'IndexError': L.exists(0, L.len(r), lambda k: L.Or(c[k] < -ln[norm_row(L, r[k], n)], c[k] >= ln[norm_row(L, r[k], n)]))}
+        return {'IndexError': L.exists(0, m, lambda k: L.Or(c[k] < -ln[norm_row(L, r[k], n)], c[k] >= ln[norm_row(L, r[k], n)]))}
 
     def ensures(self, L, A, N, R, G, V):
-        (r, c), ln, stt = A['iis_ragged'], A['lengths'], A['starts']
-        n, m = L.len(ln), L.len(r)
+        ln, stt = A['lengths'], A['starts']
+        r, c, m, _ = self.pair(L, A)
+        n = L.len(ln)
         flat = R[0]
         rp = lambda k: norm_row(L, r[k], n)
         cp = lambda k: L.ite(c[k] < 0, c[k] + ln[rp(k)], c[k])
@@ -109,8 +138,9 @@ class ConvertFrom2d(Contract):
 
     def result(self, e, st, args):
         from pyvc.engine import Tup
-        r = e.deref(st, e.deref(st, args['iis_ragged']).items[0])
-        return Tup([e.fresh_arr(st, 'flat', 'int', (r.shape[0],))])
+        I = e.deref(st, args['iis_ragged'])
+        m = I.shape[1] if self.arr2d else e.deref(st, I.items[0]).shape[0]
+        return Tup([e.fresh_arr(st, 'flat', 'int', (m,))])
 
     def pins(self):
         import z3
@@ -296,6 +326,16 @@ class IisFromList(Contract):
     def params(self, e, st):
         return {'first_dimension': _arr(e, st, 'rows', 'M', list=True), 'second_dimension': _arr(e, st, 'cols', 'K', list=True)}
 
+    def ghost(self, L, A):
+        """row-major numbering of the pairs, read backwards: position t is pair (t div k, t mod k).  The two ghost functions and their
+        defining property (division with remainder: Sums.lean `pair_index_decompose`) are a trusted arithmetic fact."""
+        m, k = L.len(A['first_dimension']), L.len(A['second_dimension'])
+        if L.sym:
+            RO, CO = L.func('PAIRROW', 'int', 'int', 'int'), L.func('PAIRCOL', 'int', 'int', 'int')
+            ax = [L.forall(0, L.mul(m, k), lambda t: L.And(RO(t, k) >= 0, RO(t, k) < m, CO(t, k) >= 0, CO(t, k) < k, t == L.mul(RO(t, k), k) + CO(t, k)))]
+            return {'RO': (lambda t: RO(t, k)), 'CO': (lambda t: CO(t, k))}, ax
+        return {'RO': (lambda t: int(t) // int(k)), 'CO': (lambda t: int(t) % int(k))}, []
+
     def requires(self, L, A, G):
         return [('some-rows-and-columns', L.And(L.len(A['first_dimension']) >= 1, L.len(A['second_dimension']) >= 1))]
 
@@ -305,7 +345,19 @@ class IisFromList(Contract):
         iis, newl = R
         return [('two-index-rows', L.And(L.shape(iis, 0) == 2, L.shape(iis, 1) == L.mul(m, k))),
                 ('row-major-product', L.forall2((0, m), (0, k), lambda p, q: L.And(iis[0, L.mul(p, k) + q] == rows[p], iis[1, L.mul(p, k) + q] == cols[q]))),
+                ('every-position-holds-a-selected-row-and-a-selected-column', L.forall(0, L.mul(m, k), lambda t: L.And(iis[0, t] == rows[G['RO'](t)], iis[1, t] == cols[G['CO'](t)]))),
                 ('every-new-row-has-one-entry-per-column', L.And(L.len(newl) == m, L.forall(0, m, lambda p: newl[p] == k)))]
+
+    def result(self, e, st, args):
+        import z3
+        from pyvc.engine import Tup
+        from pyvc.logic import Arr
+        tot = e.fresh('n_pairs', 'int')
+        st.pc.append(tot >= 0)
+        n_rows = e.fresh('n_newl', 'int')
+        st.pc.append(n_rows >= 0)
+        iis = e.new_obj(st, Arr(e.fresh('iis', e.arr_sort('int', 2)), (z3.IntVal(2), tot), 'int'))
+        return Tup([iis, e.fresh_arr(st, 'new_lengths', 'int', (n_rows,))])
 
     def pins(self):
         import z3
@@ -539,6 +591,105 @@ class GetItem(Contract):
     def pins(self):
         import z3
         return [[z3.Int('N') == 2, z3.Int('M') == 1, z3.Int('M2') == 1, z3.Int('ND') == 2], [z3.Int('N') == 2, z3.Int('M') == 2, z3.Int('M2') == 2, z3.Int('ND') == 3]]
+
+
+class GetItemList(Contract):
+    """RaggedArray.__getitem__ for a[lo:hi, cols] with a row slice and a column index array (list) `cols`, against the list of rows
+    (row(t)[j] := _data[PS(t) + j]): the result has one row per selected row, each with len(cols) entries, and entry q of result row p is
+    row(lo' + p)[cols[q]] (negative column indices count from the end of *that* row); IndexError exactly when some cols[q] lies outside
+    some selected row."""
+    key = F + 'RaggedArray.__getitem__'
+    prune_paths = True
+
+    def __init__(self, row_none=(True, True), exclude=()):
+        self.rnone, self.exclude = tuple(row_none), set(exclude)
+
+    def params(self, e, st):
+        import z3
+        from pyvc.engine import Tup, Slice
+        rlo, rhi = [None if isnone else z3.Int(nm) for nm, isnone in zip(('rs_start', 'rs_stop'), self.rnone)]
+        return {'self': _ra_self(e, st), 'iis': Tup([Slice(rlo, rhi, None), _arr(e, st, 'cols', 'K', list=True)])}
+
+    def rows_of(self, L, A):
+        first = A['iis'][0]
+        n = L.len(A['self'].lengths)
+        lo = 0 if first.start is None else L.ite(first.start < 0, first.start + n, first.start)
+        hi = n if first.stop is None else L.ite(first.stop < 0, first.stop + n, first.stop)
+        return L.max(hi - lo, 0), (lambda p: lo + p)
+
+    def ghost(self, L, A):
+        PS, ax = prefix_sums(L, A['self'].lengths, 'PSG')
+        if L.sym:
+            # arithmetic of the row-major pair numbering (lemmas/Sums.lean: pair_index_lt): 0 <= p < m, 0 <= q < k  =>  0 <= p*k + q < m*k
+            m, k = self.rows_of(L, A)[0], L.len(A['iis'][1])
+            ax = ax + [L.forall2((0, m), (0, k), lambda p, q: L.And(L.mul(p, k) + q >= 0, L.mul(p, k) + q < L.mul(m, k)))]
+        return {'PS': PS}, ax
+
+    def lemmas(self, L, A, G):
+        if not L.sym:
+            return []
+        n, PS = L.len(A['self'].lengths), G['PS']
+        return [dict(name='prefix-sums-below-total', lo=0, hi=n, down=True, P=lambda t: PS(t) <= PS(n)),
+                dict(name='prefix-sums-nonneg', lo=0, hi=n, down=False, P=lambda t: PS(t) >= 0)]
+
+    def requires(self, L, A, G):
+        s = A['self']
+        ln, n = s.lengths, L.len(s.lengths)
+        first, cols = A['iis']
+        m, row = self.rows_of(L, A)
+        out = [('some-rows', n >= 1), ('lengths-positive', L.forall(0, n, lambda t: ln[t] >= 1)),
+               ('flat-data-holds-all-rows', L.len(s._data) == G['PS'](n)), ('some-columns', L.len(cols) >= 1)]
+        if first.start is not None:
+            out.append(('row-start-within-rows', L.And(first.start >= -n, first.start <= n)))
+        if first.stop is not None:
+            out.append(('row-stop-within-rows', L.And(first.stop >= -n, first.stop <= n)))
+        out.append(('outside-known-finding-class:some-row-selected', m >= 1))
+        return out
+
+    def raises(self, L, A, G):
+        ln, cols = A['self'].lengths, A['iis'][1]
+        m, row = self.rows_of(L, A)
+        return {'IndexError': L.exists2((0, m), (0, L.len(cols)), lambda p, q: L.Or(cols[q] < -ln[row(p)], cols[q] >= ln[row(p)]))}
+
+    def ensures(self, L, A, N, R, G, V):
+        s = A['self']
+        ln, data, PS = s.lengths, s._data, G['PS']
+        cols = A['iis'][1]
+        k = L.len(cols)
+        m, row = self.rows_of(L, A)
+        cp = lambda p, q: L.ite(cols[q] < 0, cols[q] + ln[row(p)], cols[q])
+        return [('one-row-per-selected-row-each-with-one-entry-per-column', L.And(L.len(R.lengths) == m, L.forall(0, m, lambda p: R.lengths[p] == k))),
+                ('data-holds-the-selected-cells', L.len(R._data) == L.mul(m, k)),
+                ('entry-q-of-row-p-is-the-element-of-the-selected-row', L.forall2((0, m), (0, k), lambda p, q: R._data[L.mul(p, k) + q] == data[PS(row(p)) + cp(p, q)]),
+                 (['cut:flat-result-reads-the-generated-cells', '_get_iis_from_list:row-major-product', '_get_iis_from_list:two-index-rows',
+                   '_slice_to_list:first-row-as-python-slicing', '_slice_to_list:end-row-as-python-slicing', '_slice_to_list:same-step',
+                   'pre:some-rows', 'pre:some-columns', 'pre:lengths-positive', 'pre:outside-known-finding-class:some-row-selected'] +
+                  [x for x, isnone in zip(('pre:row-start-within-rows', 'pre:row-stop-within-rows'), self.rnone) if not isnone]) if L.sym else None)]
+
+    @property
+    def cuts(self):
+        def after_read(L, V):
+            # every cell of the flat result is the cell (row, column) the helper generated for that position
+            iis = V['iis']          # the local `iis` now holds the helper's (2, M) array of (row, column) pairs
+            s0 = V.old['self']
+            data, ln, sd, PS = s0._data, s0.lengths, V['sliced_data'], V.ghost['PS']
+            n = L.len(ln)
+            rp = lambda t: norm_row(L, iis[0, t], n)
+            cp = lambda t: L.ite(iis[1, t] < 0, iis[1, t] + ln[rp(t)], iis[1, t])
+            return [dict(name='flat-result-reads-the-generated-cells',
+                         fact=L.And(L.len(sd) == L.shape(iis, 1), L.forall(0, L.shape(iis, 1), lambda t: sd[t] == data[PS(rp(t)) + cp(t)])))]
+        return {'sliced_data': after_read}
+
+    def pins(self):
+        import z3
+        return [[z3.Int('N') == 2, z3.Int('K') == 1, z3.Int('ND') == 2], [z3.Int('N') == 2, z3.Int('K') == 2, z3.Int('ND') == 4]]
+
+
+def registry_getitem_list(row_none=(True, True), exclude=()):
+    il = IisFromList()
+    il.range_as_array = ('first_dimension',)
+    cs = [GetItemList(row_none, exclude), HandleNegative(), ConvertFrom2d(arr2d=True), Starts(), RaggedInit(), il, SliceToList()]
+    return {c.key: c for c in cs}
 
 
 def registry_getitem(form='paired', start_none=False, stop_none=False, exclude=(), row_none=(True, True)):
